@@ -189,6 +189,18 @@ def gen_program(rng, dim, opts=None):
         f = b.add(('cat', [fa, fb]), feat, 1)
         b.add(('lin', f, nn.Linear(feat, rng.choice([2, 3]))), 0, 1)
         return b.prog, [shape] * (2 if two else 1)
+    if o.get('cat_tail') and not o.get('unsupported'):
+        # a channel concat right before the flatten / head (with exclusions: reaches an excluded
+        # Linear through concat + element-wise op + flatten)
+        cands = [j for j in range(len(b.prog)) if b.sp[j] == b.sp[cur] and j != cur and
+                 b.prog[j][0] in ('relu', 'pool', 'add')]
+        if not cands:
+            cands = [b.conv(cur, keep_size=True, k_choices=[1, 3])]
+        lst = [cur, rng.choice(cands)]
+        rng.shuffle(lst)
+        cur = b.add(('cat', lst), sum(b.ch[j] for j in lst), b.sp[cur])
+        if rng.random() < .6:
+            cur = b.add(('relu', cur), b.ch[cur], b.sp[cur])
     unsup = o.get('unsupported')
     if unsup == 'add_cat':
         # residual sum one of whose operands is a channel concat (known finding K9)
@@ -257,6 +269,11 @@ def choose_exclusions(prog, rng, mode):
         for i in rng.sample(layers, min(len(layers), rng.choice([1, 1, 2]))):
             names.append('n%d' % i)
             excl.add(i)
+    if mode == 'lastlin':
+        # the first Linear after the flatten, by name
+        lins = [i for i in layers if prog[i][0] == 'lin']
+        names.append('n%d' % lins[0])
+        excl.add(lins[0])
     if mode in ('types', 'both'):
         t = rng.choice([nn.Linear, nn.Linear, type(prog[layers[0]][-1])])
         types.append(t)
